@@ -41,6 +41,7 @@ DEV_SIG = {"IntCastWraps": "integer-cast-wraps-out-of-range-int",
            "MetadataUuidLikeText": "metadata-uuidlike-text-becomes-uuid",
            "MapKeyWrapsU32": "valuemap-key-wraps-u32"}
 REF_MAP = {1: "A", 2: "B"}
+BASE_MAP = {6: "base"}  # what a value map holds before an operation on an existing map (6 is in no key class)
 KIND_TYPE = {"Float": "FLOAT", "Integer": "INTEGER", "Boolean": "BOOLEAN", "Referenced": "REFERENCED", "Text": "TEXT"}
 KIND_CLASS = {"Float": "FloatData", "Integer": "IntegerData", "Boolean": "BooleanData",
               "Referenced": "ReferencedData", "Text": "TextData"}
@@ -79,6 +80,8 @@ def n_picks(c, extra, seed, picks):
     n = max(len(_members(c, "elems", e, extra, seed)) for e in range(len(c["elems"])))
     if c["aux"]:
         n = max(n, max(len(_members(c, "aux", e, extra, seed)) for e in range(len(c["aux"]))))
+    if c["fam"] == "Map" and c["op"] not in ("add", "assign"):
+        n = min(n, 4 * picks)  # the operation shapes share the codec of add / assign, which get every member
     return n
 
 
@@ -291,9 +294,9 @@ def _write(ws, item, inst):
         elif fam == "Map":
             ints = [int(k) if isinstance(k, (int, np.integer)) and 0 <= int(k) <= R.I32MAX else 0 for k in inst["elems"]]
             obs["refs"] = ints
-            if op == "assign":
+            if op != "add":
                 data = pts.add_data({"d": {"values": np.array(ints, dtype="int32"), "type": "REFERENCED",
-                                           "association": "VERTEX", "value_map": {1: "old"}}})
+                                           "association": "VERTEX", "value_map": dict(BASE_MAP)}})
         elif fam == "Json" and op == "append":
             pts.add_comment("earlier comment", "someone")
         elif fam == "Blob" and op == "set":
@@ -321,8 +324,25 @@ def _write(ws, item, inst):
             if op == "add":
                 data = pts.add_data({"d": {"values": np.array(obs["refs"], dtype="int32"), "type": "REFERENCED",
                                            "association": "VERTEX", "value_map": arg}})
-            else:
+            elif op == "assign":
                 data.entity_type.value_map = arg
+            elif op == "assign_equal":
+                data.entity_type.value_map = arg
+                data.entity_type.value_map = dict(data.entity_type.value_map.map)  # equal, but a new dict
+            elif op == "equal_then_assign":
+                data.entity_type.value_map = dict(data.entity_type.value_map.map)  # unchanged ...
+                data.entity_type.value_map = arg  # ... then changed
+            elif op == "edit_assign":
+                for key, label in arg.items():
+                    data.value_map[key] = label  # edits the held map in place (not written by design)
+                data.entity_type.value_map = data.value_map  # commit: the object already held
+            elif op == "editdict_assign":
+                held = data.value_map.map  # the dict the getter returns
+                for key, label in arg.items():
+                    held[key] = label
+                data.entity_type.value_map = held
+            else:
+                raise MachineryError(f"unknown map operation {op}")
             vmap = data.entity_type.value_map
             obs["live_map"] = None if vmap is None else dict(vmap.map)
         elif kind == "Comments":
@@ -507,13 +527,15 @@ def _mismatches(item, inst, obs, outc):
     elif fam == "Map":
         keys, labels = inst["elems"], inst["aux"]
         zero = {"Unknown": "Unknown", "FalseLbl": "False"}[outc["zero"]]
-        live_exp = {int(k): l for k, l in zip(keys, labels)}
+        base = dict(BASE_MAP) if outc.get("base") == "kept" else {}
+        live_exp = dict(base)
+        live_exp.update({int(k): l for k, l in zip(keys, labels)})
         live_exp.setdefault(0, zero)
         got_live = None if obs.get("live_map") is None else {int(k): v for k, v in obs["live_map"].items()}
         if got_live != live_exp:
             bad.append(("live", f"live value map {got_live!r} expected {live_exp!r}"))
         pairs = [(want("stored", i)[1], labels[i]) for i in range(len(keys))]
-        pairs = [(int(k), l) for k, l in pairs]
+        pairs = list(base.items()) + [(int(k), l) for k, l in pairs]
         if all(int(k) != 0 for k in keys):
             pairs.append((0, zero))
         if sorted(raw.get("vmap") or []) != sorted(pairs):
